@@ -1268,6 +1268,30 @@ def oracle(ctx, deep):
             fails.append(f)
             if len(fails) >= 5:
                 break
+    # YAML anchors / programmatic construction: several connections share ONE protect-entry object (or one protect list);
+    # every connection must still get its own defaults (selectors default to the connection's own addresses)
+    for k in range(24 if deep else 8):
+        entry = {}
+        if rng.random() < 0.5:
+            entry['ip_proto'] = rng.choice(['tcp', 'udp', 'any'])
+        if rng.random() < 0.3:
+            entry['my_subnet'] = '10.%d.0.0/16' % rng.randrange(1, 200)
+        if rng.random() < 0.3:
+            entry['peer_port'] = rng.choice([0, 80, 443])
+        shared_list = [entry]
+        d = {}
+        n = rng.choice([2, 3])
+        for j in range(n):
+            d['conn%d' % j] = {'my_addr': '10.0.0.1', 'peer_addr': '10.0.%d.%d' % (k, j + 2), 'my_auth': {'psk': 'a%d' % j},
+                               'peer_auth': {'psk': 'b%d' % j},
+                               'protect': shared_list if rng.random() < 0.5 else [entry]}
+        f = check_real(rng, ['10.0.0.1'], d)
+        ctx.case({'shared-protect-entry': k, 'connections': n, 'entry': sorted(entry)}, nontrivial=True)
+        ctx.count('oracle:shared-protect-entry')
+        if f is not None:
+            f.replay['shared_protect_entry'] = True      # all connections share one protect-entry object
+            fails.append(f)
+            break
     # my_addr not listened on is rejected (every listening set that lacks the address)
     base = {'c': {'my_addr': '10.0.0.1', 'peer_addr': '10.0.0.2', 'my_auth': {'psk': 'a'}, 'peer_auth': {'psk': 'b'},
                   'protect': [{}]}}
@@ -1285,6 +1309,10 @@ def replay(ctx, obj):
     if obj.get('kind') != 'config':
         return []
     d = ast.literal_eval(obj['dict'])
+    if obj.get('shared_protect_entry'):
+        conns = list(d.values())
+        for c in conns[1:]:
+            c['protect'] = conns[0]['protect']         # restore the sharing that repr() cannot express
     f = check_real(random.Random(1), obj['listen'], d)
     if f is None and obj.get('expect') == 'reject':
         res, _ = run_real(random.Random(1), obj['listen'], d)
